@@ -299,4 +299,46 @@ func init() {
 		"[py.GetAttrString#1 != nil && py.IsException(py.AttributeError, err!)] GetAttrString(slot0, vm.frame.Code.Names[p2]); IsException(py.AttributeError, err!); ExceptionNewf(py.ImportError, \"cannot import name %s\", vm.frame.Code.Names[p2]) -> err!",
 		"[py.GetAttrString#1 == nil] GetAttrString(slot0, vm.frame.Code.Names[p2]) -> nil",
 	}
+	// an instruction with an argument takes 3 bytes, or 6 once its argument has needed more than 16 bits (the width is latched)  []
+	pathSpec["compile|OpArg.Size"] = []string{
+		"[!(recv.wide) && recv.Arg <= 65535]  -> 3",
+		"[recv.Arg <= 65535 && recv.wide]  -> 6",
+		"[recv.Arg >= 65536] recv.wide = true -> 6",
+	}
+	// the bytes written are as many as Size says: the EXTENDED_ARG prefix is written exactly when Size is 6 (not when the argument happens to be large at that moment) — otherwise every later position is off by three  []
+	pathSpec["compile|OpArg.Output"] = []string{
+		"[!(recv.wide) && recv.Arg <= 65535]  -> composite[recv.Op,recv.Arg,bits(recv.Arg,8,-1)]",
+		"[recv.Arg <= 65535 && recv.wide]  -> append(composite[144,bits(recv.Arg,16,-1),bits(recv.Arg,24,-1)], composite[recv.Op,recv.Arg,bits(recv.Arg,8,-1)])",
+		"[recv.Arg >= 65536] recv.wide = true -> append(composite[144,bits(recv.Arg,16,-1),bits(recv.Arg,24,-1)], composite[recv.Op,recv.Arg,bits(recv.Arg,8,-1)])",
+	}
+	// an absolute jump's argument is the position of its label  []
+	pathSpec["compile|JumpAbs.Resolve"] = []string{
+		"[] recv.OpArg.Arg = recv.Dest.p",
+	}
+	// a relative jump's argument is the distance from the end of the instruction to its label, and is left alone while the label still lies before that end (not yet moved in this pass): the unsigned difference would wrap and latch the instruction wide  []
+	pathSpec["compile|JumpRel.Resolve"] = []string{
+		"[!(recv.wide) && recv.Arg <= 65535 && recv.Dest.p - recv.p <= 2] ",
+		"[!(recv.wide) && recv.Arg <= 65535 && recv.Dest.p - recv.p >= 3] recv.OpArg.Arg = recv.Dest.p - recv.p - 3",
+		"[recv.Arg <= 65535 && recv.Dest.p - recv.p <= 5 && recv.wide] ",
+		"[recv.Arg <= 65535 && recv.Dest.p - recv.p >= 6 && recv.wide] recv.OpArg.Arg = recv.Dest.p - recv.p - 6",
+		"[recv.Arg >= 65536 && recv.Dest.p - recv.p <= 5] recv.wide = true",
+		"[recv.Arg >= 65536 && recv.Dest.p - recv.p >= 6] recv.wide = true; recv.OpArg.Arg = recv.Dest.p - recv.p - 6",
+	}
+	// operands of a float comparison: a float as it is; a bool as 0/1; an int within ±2**53 converted, any other int compared exactly  []
+	pathSpec["py|floatCompareOperands"] = []string{
+		"[!(b) && p2.(type)==Bool]  -> p1, 0, true",
+		"[]  -> 0, 0, false",
+		"[b && p2.(type)==Bool]  -> p1, 1, true",
+		"[p2 <= -9007199254740993 && p2.(type)==Int] NewInt(p2); floatCompareBig(p1, math/big.NewInt#0) -> py.floatCompareBig#0, py.floatCompareBig#1, py.floatCompareBig#2",
+		"[p2 <= 9007199254740992 && p2 >= -9007199254740992 && p2.(type)==Int]  -> p1, p2, true",
+		"[p2 >= -9007199254740992 && p2 >= 9007199254740993 && p2.(type)==Int] NewInt(p2); floatCompareBig(p1, math/big.NewInt#0) -> py.floatCompareBig#0, py.floatCompareBig#1, py.floatCompareBig#2",
+		"[p2.(type)==*BigInt] floatCompareBig(p1, p2) -> py.floatCompareBig#0, py.floatCompareBig#1, py.floatCompareBig#2",
+		"[p2.(type)==Float]  -> p1, p2, true",
+	}
+	// exact comparison of a float with an integer of any size: nan and the infinities answer by themselves, every finite float goes through the exact big.Float comparison — no magnitude shortcut in between (finite floats reach 2**1024 - 2**971)  []
+	pathSpec["py|floatCompareBig"] = []string{
+		"[!(math.IsInf(p1, 0)) && !(math.IsNaN(p1))] IsNaN(p1); IsInf(p1, 0); L1.SetFloat64(p1); L2.SetInt(p2); (*math/big.Float).SetFloat64#0.Cmp((*math/big.Float).SetInt#0) -> ret:new(big.Float).SetFloat64(float64(p1)).Cmp(new(big.Float).SetInt(p2)), 0, true",
+		"[!(math.IsNaN(p1)) && math.IsInf(p1, 0)] IsNaN(p1); IsInf(p1, 0) -> p1, 0, true",
+		"[math.IsNaN(p1)] IsNaN(p1) -> p1, 0, true",
+	}
 }
